@@ -51,6 +51,7 @@ type Thread struct {
 	lastSite uintptr
 	lastEp   uint64
 	respins  int
+	site     uint64 // hash of the call path of the pending operation (cache mode only)
 }
 
 func (t *Thread) Done() bool { return t.done }
@@ -70,6 +71,7 @@ type PointRec struct {
 	Pend           []PendOp     // pending ops of the enabled threads, canonical order (sleep mode only)
 	SleepBefore    map[int]bool // threads asleep at this state (sleep mode only)
 	StateHash      uint64       // abstract protocol state before the choice
+	Key            uint64       // full exploration key (cache mode): StateHash + call paths + stream-op order + observations
 }
 
 // Independent is the (conservative) independence relation used by the sleep-set reduction.
@@ -123,6 +125,12 @@ type Sched struct {
 	objVals []int64
 	Holder  int // maintained by the monitor (stream holder), part of the abstract state
 	mainParked bool
+	// cache mode: state-caching exploration
+	UseCache bool
+	MergeAt  int                 // index of the first point whose state had been visited before (-1: none)
+	Visited  map[uint64]struct{} // shared across the executions of one exploration
+	OpSeq    uint64              // order-sensitive hash of the shared-stream operations performed so far
+	ObsHash  uint64              // hash of what the driver has observed so far (API call results)
 }
 
 var active *Sched
@@ -130,7 +138,7 @@ var active *Sched
 func Active() *Sched { return active }
 
 func New(prefix []int) *Sched {
-	s := &Sched{Prefix: prefix, epoch: map[unsafe.Pointer]uint64{}, Horizon: 20000, FaultThread: -1, streamOps: map[int]int{}, objIdx: map[unsafe.Pointer]int{}, Holder: -1}
+	s := &Sched{Prefix: prefix, epoch: map[unsafe.Pointer]uint64{}, Horizon: 20000, FaultThread: -1, streamOps: map[int]int{}, objIdx: map[unsafe.Pointer]int{}, Holder: -1, MergeAt: -1}
 	t := &Thread{ID: 0, wake: make(chan struct{}, 1)}
 	s.Threads = []*Thread{t}
 	s.cur = t
@@ -152,7 +160,7 @@ func (s *Sched) Run(body func()) (ab *Abort) {
 	}()
 	body()
 	s.Threads[0].done = true
-	for s.anyLive() {
+	for s.anyLive() && s.Aborted == nil {
 		s.mainParked = true
 		s.switchFrom(s.Threads[0], true)
 		s.mainParked = false
@@ -240,10 +248,46 @@ func (s *Sched) stateHash() uint64 {
 func (s *Sched) point(kind OpKind, obj unsafe.Pointer) {
 	t := s.cur
 	t.kind, t.obj = kind, obj
+	if s.UseCache {
+		var pcs [8]uintptr
+		n := runtime.Callers(2, pcs[:])
+		h := uint64(1469598103934665603)
+		for _, pc := range pcs[:n] {
+			h = (h ^ uint64(pc)) * 1099511628211
+		}
+		t.site = h
+	}
 	s.switchFrom(t, false)
 }
 
+func (s *Sched) fullKey(sh uint64) uint64 {
+	h := sh
+	mix := func(v uint64) { h = (h ^ v) * 1099511628211 }
+	for _, t := range s.Threads {
+		if !t.done {
+			mix(t.site)
+		} else {
+			mix(3)
+		}
+	}
+	mix(s.OpSeq)
+	mix(s.ObsHash)
+	if s.FaultFired {
+		mix(0xFA)
+	}
+	return h
+}
+
 func (s *Sched) switchFrom(t *Thread, exiting bool) {
+	if s.Aborted != nil {
+		// The execution was aborted earlier (deadlock / livelock / horizon) but a recover() in the
+		// code under test swallowed the abort panic: raise it again at every scheduling point
+		// until the driver unwinds.
+		if t.ID == 0 {
+			panic(s.Aborted)
+		}
+		select {}
+	}
 	if len(s.Points) > s.Horizon {
 		s.abort("horizon")
 	}
@@ -330,8 +374,23 @@ func (s *Sched) switchFrom(t *Thread, exiting bool) {
 			s.sleep = ns
 		}
 	}
+	sh := s.stateHash()
+	var key uint64
+	if s.UseCache {
+		key = s.fullKey(sh)
+		if n >= len(s.Prefix) && s.MergeAt < 0 {
+			if _, seen := s.Visited[key]; seen {
+				// this global state has been (or is being) explored from another path: the rest of
+				// this execution runs with default choices and the explorer does not branch from
+				// this point on (the first visitor of the state does)
+				s.MergeAt = n
+			} else {
+				s.Visited[key] = struct{}{}
+			}
+		}
+	}
 	nxt := en[idx]
-	s.Points = append(s.Points, PointRec{Enabled: len(en), Chosen: idx, RunningEnabled: runningEnabled, Thread: nxt.ID, Kind: nxt.kind, Pend: pend, SleepBefore: sleepBefore, StateHash: s.stateHash()})
+	s.Points = append(s.Points, PointRec{Enabled: len(en), Chosen: idx, RunningEnabled: runningEnabled, Thread: nxt.ID, Kind: nxt.kind, Pend: pend, SleepBefore: sleepBefore, StateHash: sh, Key: key})
 	if nxt == t {
 		return
 	}
@@ -420,6 +479,7 @@ func StreamOp(obj unsafe.Pointer, detail string) {
 	t := s.cur
 	t.lastAddr = nil
 	s.point(OpStream, obj)
+	s.OpSeq = (s.OpSeq ^ (uint64(t.ID+1)*131 + uint64(len(detail))*7 + uint64(detail[0]))) * 1099511628211
 	s.note(Event{Kind: OpStream, Obj: obj, Detail: detail})
 	if detail == "Close" {
 		return // a failing Close returns an error, it does not panic: not a fault placement here
